@@ -293,3 +293,46 @@ def _sample_append(rnd):
     c = gen_tree(rnd, depth=3)
     c.name = "child"
     return {"self": t, "image": c}
+
+
+# ---- alignment for erasing: the aligned range starts at or before the image, ends at or behind it, both ends on the boundary, nothing wider than needed ----
+ROOT = Obj(BinaryImage, offset=Range(0, 1 << 40), parent=Const(None), _g_len=Range(0, 1 << 32), _g_bytes=bytes, _g_invalid=bool, name=Const("child"))
+# the parent is non-empty: `if self.parent:` in absolute_address is the truth value of the parent, i.e. its LENGTH - an empty parent (which can only hold
+# empty children) is taken for "no parent"; stated here as the domain of the contract
+CHILD = Obj(BinaryImage, offset=Range(0, 1 << 40), parent=Obj(BinaryImage, offset=Range(0, 1 << 40), parent=Const(None), _g_len=Range(1, 1 << 32), _g_bytes=bytes,
+                                                                 _g_invalid=bool, name=Const("child")),
+            _g_len=Range(0, 1 << 32), _g_bytes=bytes, _g_invalid=bool, name=Const("child"))
+
+
+def abs_addr(img):
+    return img.offset + (img.parent.offset if img.parent is not None else 0)
+
+
+def _mk_placed(rnd):
+    img = BinaryImage("x", binary=bytes(rnd.randrange(1, 40)), offset=rnd.randrange(0, 1 << 20))
+    if rnd.random() < 0.5:
+        p = BinaryImage("p", offset=rnd.randrange(0, 1 << 20))
+        p.add_image(img)
+    return img
+
+
+@contract("spsdk.utils.images:BinaryImage.absolute_address")
+def _(self: Union[ROOT, CHILD]) -> int:
+    returns(abs_addr(self), label="own-offset-plus-the-parents")
+    pure()
+    sample_with(lambda rnd: {"self": _mk_placed(rnd)})
+
+
+@contract("spsdk.utils.images:BinaryImage.aligned_start")
+def _(self: Union[ROOT, CHILD], alignment: Range(1, 1 << 20)) -> int:
+    returns(abs_addr(self) // alignment * alignment, label="largest-boundary-at-or-before-the-start")
+    pure()
+    sample_with(lambda rnd: {"self": _mk_placed(rnd), "alignment": rnd.choice([1, 4, 16, 1024, 4096])})
+
+
+@contract("spsdk.utils.images:BinaryImage.aligned_length")
+def _(self: Union[ROOT, CHILD], alignment: Range(1, 1 << 20)) -> int:
+    let(start=abs_addr(self) // alignment * alignment, end=abs_addr(self) + self._g_len)
+    ensures((start + result) % alignment == 0 and start + result >= end and start + result - end < alignment, label="ends-on-the-first-boundary-at-or-behind-the-end")
+    pure()
+    sample_with(lambda rnd: {"self": _mk_placed(rnd), "alignment": rnd.choice([1, 4, 16, 1024, 4096])})
